@@ -159,13 +159,33 @@ def r02_4(rep, repo, rule='R02.4'):
                               construct='immutable', node=st)
                     continue
                 if nm == 'changed' and isinstance(st, ast.FunctionDef):
-                    cfg = cfg_of(st)
-                    p = pred_of('super().changed(originally_changed)')
-                    ok = must(cfg, p)
+                    # over path summaries: every normal path hands the notification
+                    # (with the caller's argument) to the inherited implementation -
+                    # spelled super().changed(x), super(Cls, self).changed(x) or
+                    # Base.changed(self, x) for a class later in the MRO
+                    from . import sem as _sem4
+                    arg = st.args.args[1].arg if len(st.args.args) > 1 else None
+                    later = mro[mro.index(cname) + 1:] if cname in mro else []
+                    accept = {'super().changed(%s)' % arg,
+                              'super(%s, self).changed(%s)' % (cname, arg)}
+                    # module-level aliases of the class (`ProvidesClass = Provides`)
+                    for rel_ in ('interface.py', 'declarations.py'):
+                        for ms_ in repo.module(rel_).body:
+                            if isinstance(ms_, ast.Assign) and isinstance(ms_.value, ast.Name) \
+                                    and ms_.value.id == cname:
+                                for t_ in ms_.targets:
+                                    if isinstance(t_, ast.Name):
+                                        accept.add('super(%s, self).changed(%s)' % (t_.id, arg))
+                    accept |= {'%s.changed(self, %s)' % (b, arg) for b in later}
+                    ss4 = _sem4.normal(_sem4.summaries(st))
+                    bad4 = [ps for ps in ss4 if not any(
+                        e.kind == 'call' and _sem4.nt(e.r) in accept for e in ps.events)]
+                    ok = bool(ss4) and not bad4
                     rep.check(rule, site, ok,
-                              'override calls super().changed(originally_changed) '
-                              'on every path' if ok else
-                              {'path': witness_path(cfg, cfg.entry, p)},
+                              'override hands the notification to the inherited changed() '
+                              'on every path (%d paths)' % len(ss4) if ok else
+                              {'path': [repr(e)[:70] for e in bad4[0].events][:8] if bad4
+                               else 'no normal path'},
                               construct='super', node=st)
                     continue
                 if nm in ('isOrExtends',) and isinstance(st, ast.Assign) and \
